@@ -1773,6 +1773,12 @@ fn filter_candidate_pairs(
         .downcast_ref::<arrow::array::BooleanArray>()
     {
         Some(mask) => mask,
+        // An untyped NULL condition (`ON NULL`, or one that constant-folds to
+        // it) evaluates to a NullArray: UNKNOWN for every pair, and NULL is
+        // not TRUE — no candidate qualifies.
+        None if filter_result.data_type() == &arrow::datatypes::DataType::Null => {
+            return Ok((Vec::new(), Vec::new()));
+        }
         // Non-boolean filter result: keep every candidate (the fallback the
         // Semi/Anti path has always used).
         None => return Ok((build_indices, probe_indices)),
